@@ -111,6 +111,9 @@ class _Passthrough:
         return _Stmts._use_site(st, x)
 
 
+_POLARITY = {ast.NotEq: ast.Eq, ast.Is: ast.IsNot, ast.NotIn: ast.In}
+
+
 def _terminates(body) -> bool:
     if not body:
         return False
@@ -303,6 +306,10 @@ class _Stmts:
             elif negated and not (tb and not te):
                 # N2
                 st.test, st.body, st.orelse = t.operand, st.orelse, st.body
+            elif tb == te and isinstance(t, ast.Compare) and len(t.ops) == 1 and type(t.ops[0]) in _POLARITY:
+                # N2 for comparisons: with two arms of the same kind the test is written as == / is not / in (the arms swap)
+                st.test = ast.copy_location(ast.Compare(left=t.left, ops=[_POLARITY[type(t.ops[0])]()], comparators=t.comparators), t)
+                st.body, st.orelse = st.orelse, st.body
         return st
 
 
